@@ -4,7 +4,7 @@ from __future__ import annotations
 import itertools
 
 from . import gen
-from .common import Batch, Result, canon_json, err_class, rng_for
+from .common import Batch, Result, canon_json, err_class, rng_for, parse_with
 
 WORD = set("abcdefghijklmnopqrstuvwxyzABCDEFGHIJKLMNOPQRSTUVWXYZ0123456789_")
 
@@ -46,7 +46,7 @@ def run(ctx):
                     p.load_additional_decay_models(*ex[j:j + k])
         # the same parser object parsed again (the registered names are part of the parser, not of one parse)
         for i in range(reparse):
-            p.parse(include_ccdecays=(i % 2 == 1))
+            parse_with(p, i % 2 == 1)
         p.parse()
         dm = p._find_decay_modes("B0")[0]
         d = p._decay_mode_details(dm, display_photos_keyword=True)
@@ -195,6 +195,18 @@ def run(ctx):
             near = u + rng.choice(["x", "_", "7", "X"])
             if spec_lex_model(models + extra, near + " ") is None and near not in extra:
                 expect_reject(f"1.0 K+ pi- {near};", extra=extra, label="near-miss-of-registered", calls=calls, reparse=rng.choice([0, 1]))
+    # registered names that do not look like the published ones: first character a digit, a sign, a dot, an underscore or a
+    # bracket; characters no label has (`:`); a registered name is whatever string the user gave, and in the model position it
+    # is read as itself (MODEL_NAME has priority over numbers and labels there)
+    odd = ["2HDM", "3BODY_PHSP", "-X", ".X", "+Y", "(M)", "FOO:1", "_U", "M'", "A*B", "a/b", "X~", "_", "7TeV-tune", "-", "2"]
+    for u in odd if tier == "thorough" else rng.sample(odd, 8):
+        extra = [u] + (["ZZTOP"] if rng.random() < 0.5 else [])
+        calls = rng.choice([1, 2])
+        for photos, pars in ((False, False), (True, True), (False, True)):
+            ph = " PHOTOS" if photos else ""
+            pa = " 0.25 w" if pars else ""
+            expect_model(f"1.0 K+ pi-{ph} {u}{pa};", u, photos, [0.25, "w"] if pars else "", ["K+", "pi-"], extra=extra, calls=calls,
+                         label="registered:odd-spelling", nontrivial=True, reparse=rng.choice([0, 1]))
     # near-miss unknown words
     n_near = 120 if tier == "quick" else 2000
     for i in range(n_near):
